@@ -5,6 +5,7 @@ package harness
 
 import (
 	"fmt"
+	"runtime"
 	"sort"
 	"strings"
 	"testing"
@@ -52,7 +53,7 @@ func genC11(rt *rapid.T) pdCase {
 	for i := 0; i < n; i++ {
 		l := fmt.Sprintf("s%d", i)
 		st := pdStep{
-			Kind: rapid.SampledFrom([]string{"poll", "poll", "poll", "post", "post", "postBlocked", "postBlocked", "release", "release", "abortPoll", "abortPost", "postWhileHandlerBusy", "appSend", "appSend", "appClose", "wait", "heartbeat", "postClose", "postWrongHeartbeat", "closeWhileBusySlowConn", "slowPoll"}).Draw(rt, l+".kind"),
+			Kind: rapid.SampledFrom([]string{"poll", "poll", "poll", "post", "post", "postBlocked", "postBlocked", "release", "release", "abortPoll", "abortPost", "postWhileHandlerBusy", "appSend", "appSend", "appClose", "wait", "heartbeat", "postClose", "postWrongHeartbeat", "closeWhileBusySlowConn", "slowPoll", "pollInsideWrite", "pollInsideWrite"}).Draw(rt, l+".kind"),
 			Sess: rapid.IntRange(0, c.NSess-1).Draw(rt, l+".sess"),
 			N:    rapid.IntRange(1, 5).Draw(rt, l+".n"),
 		}
@@ -91,6 +92,7 @@ func runC11(c pdCase) (fail string, stats map[string]bool) {
 		eio = "3"
 	}
 	var ss []*pdSess
+	var g *Gates
 	bySid := map[string]*pdSess{}
 	var hookFail string
 	var parkMsg chan struct{}
@@ -282,6 +284,73 @@ func runC11(c pdCase) (fail string, stats map[string]bool) {
 					stats["multi-packet-ack"] = true
 				}
 			}
+		case "pollInsideWrite":
+			// a second poll arrives while the response to the pending one is being prepared: the writer goroutine
+			// has taken the pending request and is held (yield point polling.write.taken) before it writes. The
+			// newcomer overlaps: 400 and transport error; the first poll is still answered exactly once
+			if s.closed || s.poll != nil || s.post != nil {
+				break
+			}
+			if g == nil {
+				g = InstallGates(nil)
+				defer g.Uninstall()
+			}
+			p1 := pc.StartPoll()
+			Settle()
+			s.accepted = append(s.accepted, p1)
+			s.poll = p1
+			if p1.Snap().Responded {
+				pc.Pump()
+				s.poll = nil
+				break
+			}
+			gp := GatePoint{"polling.write.taken", g.Count("polling.write.taken")}
+			g.mu.Lock()
+			g.plan[gp] = true
+			g.mu.Unlock()
+			w.AppSend(s.sr, msgT("down-held"), nil, false, 0)
+			Settle()
+			held := false
+			for _, x := range g.Parked() {
+				if x == gp {
+					held = true
+				}
+			}
+			if !held {
+				g.mu.Lock()
+				delete(g.plan, gp)
+				g.mu.Unlock()
+				pc.Pump()
+				s.poll = nil
+				break
+			}
+			stats["poll-arriving-while-a-response-is-being-written"] = true
+			p2 := pc.StartPoll()
+			pc.Poll = p1
+			// (the newcomer's handler may need a lock the held writer owns: give it room instead of waiting for quiescence)
+			for k := 0; k < 20000 && !p2.Snap().Responded; k++ {
+				runtime.Gosched()
+			}
+			inWindow := p2.Snap().Responded
+			g.Release(gp)
+			Settle()
+			if !inWindow && p2.Snap().Status != 400 {
+				// the newcomer did not get to run while the writer was held: it is an ordinary next poll
+				delete(stats, "poll-arriving-while-a-response-is-being-written")
+				s.accepted = append(s.accepted, p2)
+				pc.Poll = nil
+				pc.Pump()
+				pc.Poll = p2
+				s.poll = p2
+				break
+			}
+			s.refused = append(s.refused, p2)
+			closeCause(s, "transport error")
+			if snap := p1.Snap(); !snap.Responded {
+				return fmt.Sprintf("%s: the poll whose response was being written when a second poll arrived was never answered (%v); the second poll: %v", what, snap, p2.Snap()), stats
+			}
+			pc.Pump()
+			pc.Poll = nil
 		case "slowPoll":
 			// a poll over a slow connection: the status line of its response takes its time. The handler must not
 			// return before the response is out (what is written after it returned reaches nobody), one response
@@ -614,7 +683,7 @@ func runC11(c pdCase) (fail string, stats map[string]bool) {
 
 func TestC11PollingDiscipline(t *testing.T) {
 	col := NewCollector("TestC11PollingDiscipline",
-		"rapid: 1-3 polling/JSONP sessions (revision 3/4) and 2-14 steps: poll (also while one is pending), data request with 1-5 packets (also while another one's body is stalled at a drawn byte offset by the instrumented request body), release of the stalled body, abort of the pending poll / of the stalled upload, a data request that carries a close packet or a wrong-direction heartbeat (with or without a poll pending), a session closed by the application while a data request's payload is still being handled and that request's connection is slow (its first status line is held back while the handler wants to acknowledge), application Send, Close(false), waits (1ms..30s); oracle per request record: at most one status line and no write after the handler returned, handler returns iff answered; an overlapping request is answered 400 and the session closes with 'transport error'; other sessions are unaffected; a pending poll is answered no later than the session's close event; a data request is acknowledged 200 'ok' only after every message of its payload was delivered (checked from inside the message event) and never while its body is still being uploaded; delivered messages == payloads processed. non-trivial: a history with an overlap or an abort").Use(t)
+		"rapid: 1-3 polling/JSONP sessions (revision 3/4) and 2-14 steps: poll (also while one is pending), data request with 1-5 packets (also while another one's body is stalled at a drawn byte offset by the instrumented request body), release of the stalled body, abort of the pending poll / of the stalled upload, a data request that carries a close packet or a wrong-direction heartbeat (with or without a poll pending), a second poll arriving while the response to the pending one is being written (writer held at a yield point between taking the request and writing), a poll over a slow connection, a session closed by the application while a data request's payload is still being handled and that request's connection is slow (its first status line is held back while the handler wants to acknowledge), application Send, Close(false), waits (1ms..30s); oracle per request record: at most one status line and no write after the handler returned, handler returns iff answered; an overlapping request is answered 400 and the session closes with 'transport error'; other sessions are unaffected; a pending poll is answered no later than the session's close event; a data request is acknowledged 200 'ok' only after every message of its payload was delivered (checked from inside the message event) and never while its body is still being uploaded; delivered messages == payloads processed. non-trivial: a history with an overlap or an abort").Use(t)
 	rapid.Check(t, func(rt *rapid.T) {
 		c := genC11(rt)
 		journal("C11 %v", c)
@@ -636,7 +705,7 @@ func TestC11PollingDiscipline(t *testing.T) {
 			rt.Fatalf("%v: %s", c, clipStr(res.Leak, 1500))
 		}
 	})
-	col.RequireClasses(t, "overlapping-poll", "overlapping-data-request", "aborted-poll", "aborted-data-request", "stalled-body-released", "poll-released-by-close", "poll-answered-by-send", "multi-packet-ack", "undisturbed-session-ok", "request-after-close", "data-request-while-handler-busy", "client-close-packet-with-poll-pending", "wrong-heartbeat-with-poll-pending", "two-responders-for-one-data-request", "poll-response-on-slow-connection")
+	col.RequireClasses(t, "overlapping-poll", "overlapping-data-request", "aborted-poll", "aborted-data-request", "stalled-body-released", "poll-released-by-close", "poll-answered-by-send", "multi-packet-ack", "undisturbed-session-ok", "request-after-close", "data-request-while-handler-busy", "client-close-packet-with-poll-pending", "wrong-heartbeat-with-poll-pending", "two-responders-for-one-data-request", "poll-response-on-slow-connection", "poll-arriving-while-a-response-is-being-written")
 }
 
 const sigTruncatedUpload = "aborted-upload-truncated-payload-processed"
